@@ -31,6 +31,9 @@ def gen_bin_layout(rng):
         else:
             f = rng.choice(fl.DATE_FORMATS)
             fd = {"k": "date", "size": fl.date_width(f) + rng.randint(0, 2), "start": pos, "formats": [f]}
+            if rng.random() < 0.2:
+                fm = rng.choice([["%d/%m/%Y", "%m/%d/%Y"], ["%m/%d/%Y", "%d/%m/%Y"], ["%Y%m%d", "%Y%d%m"]])
+                fd = {"k": "date", "size": fl.date_width(fm[0]) + rng.randint(0, 2), "start": pos, "formats": fm, "aslist": True}
         fs.append(fd)
         pos = fd["start"] + fd["size"] + rng.choice([0, 0, 0, 1, 4])
     rng.shuffle(fs)
